@@ -4,7 +4,7 @@ namespace Ws.Driver
 open Ws Ws.Dial
 
 -- "neverT": a wss:// URL whose peer stays silent (the TLS handshake's first flight is never answered)
-def parseU (s : String) : Option Nat := if s == "never" || s == "neverT" then none else some (natOr s)
+def parseU (s : String) : Option Nat := if s == "never" || s == "neverT" || s == "neverD" then none else some (natOr s)
 
 def dErrStr : Dial.Err → String
   | .nil => "nil" | .canceled => "canceled" | .deadlineExceeded => "deadline" | .netTimeout => "nettimeout" | .io => "io"
@@ -24,7 +24,7 @@ def c20dialc (a : List String) (obs : String) : String × String :=
       | _ => hs0
     let finish0 : Option Nat := match parseU dd, parseU hs with | some d, some h => some (d + h) | _, _ => none
     let (ctxEnd, isDl) : Option Nat × Bool :=
-      if cx == "atfinish" then (finish0, false) else
+      if cx == "atfinish" || cx == "atfinishs" then (finish0, false) else
       match cx.splitOn ":" with
       | ["cancel", t] => (some (natOr t), false)
       | ["deadline", t] => (some (natOr t), true)
